@@ -30,6 +30,9 @@ func init() {
 	if d := os.Getenv("SYMGO_REPO"); d != "" {
 		repoDir = d
 	}
+	if d, err := strconv.Atoi(os.Getenv("SYMGO_MAXDEPTH")); err == nil && d > 0 {
+		maxDepth = d
+	}
 	// debugging aid: develop harnesses in another checkout of /verif
 	if d := os.Getenv("SYMGO_VERIF"); d != "" {
 		verifDir = d
